@@ -9,8 +9,6 @@ import (
 
 	semver "github.com/hashicorp/go-version"
 
-	"github.com/safing/portbase/updater"
-
 	"verifharness/hxlib"
 )
 
@@ -67,7 +65,7 @@ func bit(r *rand.Rand, pct int) string {
 	return "0"
 }
 
-var pres = []string{"", "", "", "", "beta", "alpha", "b", "rc", "staging", "a"}
+var pres = []string{"", "", "", "", "", "", "", "", "beta", "alpha", "b", "rc", "staging", "a"}
 
 // canonVer draws a canonical version number from a small pool so that collisions and neighbours are frequent.
 func canonVer(r *rand.Rand) string {
@@ -78,6 +76,9 @@ func canonVer(r *rand.Rand) string {
 		return "0.0.0-" + pick(r, "alpha", "beta", "a")
 	}
 	v := fmt.Sprintf("%d.%d.%d", pick(r, 0, 0, 1, 1, 1, 2, 3, 10), r.Intn(4), r.Intn(5))
+	if r.Intn(40) == 0 {
+		v = fmt.Sprintf("%d.%d.%d", pick(r, 1, 2147483648, 9223372036854775807), pick(r, 0, 99, 4294967295), r.Intn(3))
+	}
 	if p := pick(r, pres...); p != "" {
 		v += "-" + p
 	}
@@ -116,16 +117,17 @@ var malformed = []string{"", "abc", "1..2", ".1.2", "1.2.3.", "v", "1.2.3 4", "-
 	"1.99999999999999999999", "1,2,3", "1.2.3-", "_v1-2-3"}
 var outOfModel = []string{"1.2.3-rc.1", "1.2.3+build", "1.2.3.4", "1.2.3-BETA", "1.2.3-beta2", "1.2.3-2", "1.2.3~x", "1.2.3-a-b", "2.0.0-rc.2+m"}
 
-var idPool = []string{"app.exe", "core/lib.zip", "data", "pkg/sub/tool.tar.gz", "intel/geo_v2.mmdb"}
+var idPool = []string{"app.exe", "core/lib.zip", "data", "pkg/sub/tool.tar.gz", "intel/geo_v2.mmdb", "keys/trust.sig", "cfg/.hidden", "x_v/y-1.2.json"}
 
 type hist struct {
-	r       *hxlib.Run
-	lines   []string
-	known   map[string][]string // id -> canonical numbers added successfully (in order of first addition)
-	ids     []string
-	noModel bool
-	selOps  int
-	nVer    int
+	r           *hxlib.Run
+	lines       []string
+	known       map[string][]string // id -> canonical numbers added successfully (in order of first addition)
+	ids         []string
+	noModel     bool
+	inModelOnly bool // do not draw version strings outside the model's syntax
+	selOps      int
+	nVer        int
 }
 
 func newHist(r *hxlib.Run, nIDs int) *hist {
@@ -189,7 +191,7 @@ func (h *hist) randAdd(id string) {
 	switch x := rng.Intn(100); {
 	case x < 4:
 		raw = pick(rng, malformed...)
-	case x < 6:
+	case x < 6 && !h.inModelOnly:
 		raw = pick(rng, outOfModel...)
 	case x < 16 && len(h.known[id]) > 0:
 		raw = pick(rng, h.known[id]...) // again, other flags
@@ -323,6 +325,18 @@ func genRandomHistory(r *hxlib.Run, emit func(hxlib.Case)) {
 		h.randOp()
 	}
 	h.emit(emit, "random-history")
+}
+
+// one registry driven through many calls: state accumulated over several select/purge/blacklist rounds
+func genLongHistory(r *hxlib.Run, emit func(hxlib.Case)) {
+	h := newHist(r, 1+r.Rng.Intn(3))
+	h.inModelOnly = r.Rng.Intn(8) > 0
+	h.randFlags()
+	n := 120 + r.Rng.Intn(200)
+	for i := 0; i < n; i++ {
+		h.randOp()
+	}
+	h.emit(emit, "long-history")
 }
 
 func genLifecycle(r *hxlib.Run, emit func(hxlib.Case)) {
@@ -479,13 +493,16 @@ func randName(rng *rand.Rand) string {
 
 func docIdentifier(rng *rand.Rand) string {
 	dir := pick(rng, "", "", "a/", "path/to/", "/abs/x.d/", "all/intel/")
-	stem := pick(rng, "file", "app", "geo_v2", "x-y", "base_v1-2", "v", "_", "é")
-	ext := pick(rng, "", "", ".exe", ".tar.gz", ".zip", ".v2.json", ".")
+	stem := pick(rng, "file", "app", "geo_v2", "x-y", "base_v1-2", "v", "_", "é", "", "lib_v", "x_v1-2-", "_v_v")
+	ext := pick(rng, "", "", ".exe", ".tar.gz", ".zip", ".v2.json", ".", ".sig", "._v1-2-3")
 	return dir + stem + ext
 }
 
 func docVer(rng *rand.Rand) string {
-	v := fmt.Sprintf("%d.%d.%d", pick(rng, 0, 1, 2, 12, 7, 100), rng.Intn(14), pick(rng, 0, 3, 4, 25))
+	v := fmt.Sprintf("%d.%d.%d", pick(rng, 0, 1, 2, 12, 7, 100, 4294967296), rng.Intn(14), pick(rng, 0, 3, 4, 25, 9223372036854775807))
+	if rng.Intn(12) == 0 {
+		v = "0" + v
+	}
 	if rng.Intn(3) == 0 {
 		v += "-" + pick(rng, "beta", "staging", "a", "rc", "zz")
 	}
@@ -502,18 +519,20 @@ func genFilenames(r *hxlib.Run, emit func(hxlib.Case), n int) {
 			lines, nt = nil, false
 		}
 	}
+	hx := func(x string) string { return "x:" + hxlib.Hex([]byte(x)) }
 	fwd := func(id, ver string) {
-		p := updater.GetVersionedPath(id, ver)
-		lines = append(lines, "vpath "+"x:"+hxlib.Hex([]byte(id))+" "+"x:"+hxlib.Hex([]byte(ver)), "idver x:"+hxlib.Hex([]byte(p)), "rawver x:"+hxlib.Hex([]byte(ver)))
-		if i, v, ok := updater.GetIdentifierAndVersion(p); ok {
-			lines = append(lines, "vpath x:"+hxlib.Hex([]byte(i))+" x:"+hxlib.Hex([]byte(v)))
-			nt = true
-		}
+		p := refVersionedPath(id, ver)
+		lines = append(lines, "rt "+hx(id)+" "+hx(ver), "vpath "+hx(id)+" "+hx(ver), "idver "+hx(p), "rtb "+hx(p), "rawver "+hx(ver))
+		nt = nt || docFileVersion.MatchString(p)
 	}
 	back := func(p string) {
-		lines = append(lines, "idver x:"+hxlib.Hex([]byte(p)))
-		if i, v, ok := updater.GetIdentifierAndVersion(p); ok {
-			lines = append(lines, "vpath x:"+hxlib.Hex([]byte(i))+" x:"+hxlib.Hex([]byte(v)), "rawver x:"+hxlib.Hex([]byte(v)))
+		lines = append(lines, "idver "+hx(p), "rtb "+hx(p))
+		_, file := splitPath(p)
+		if loc := docFileVersion.FindStringIndex(file); loc != nil {
+			// independent reading of the documented format: strip the version, dashes -> dots
+			id := p[:len(p)-len(file)] + file[:loc[0]] + file[loc[1]:]
+			v := strings.Replace(file[loc[0]+2:loc[1]], "-", ".", 2)
+			lines = append(lines, "vpath "+hx(id)+" "+hx(v), "rt "+hx(id)+" "+hx(v), "rawver "+hx(v))
 			nt = true
 			r.Count("filename:version-found")
 		} else {
@@ -622,6 +641,9 @@ func generate(r *hxlib.Run, emit func(hxlib.Case)) {
 		if i%2 == 0 {
 			genSelectTable(r, emit)
 			genBlacklistRun(r, emit)
+		}
+		if i%10 == 0 {
+			genLongHistory(r, emit)
 		}
 	}
 }
